@@ -63,8 +63,8 @@ ENTRIES = {
             "sweeping persons/companies/CEOs, closed by dropping every prefix object with and without a final sweep, are "
             "followed by an assertion suffix on fresh objects; graph relations and field contents about the suffix objects "
             "must equal those of the suffix alone on a cleared graph and the reference closure.",
-            "Node-index recycling is exercised deterministically (rustworkx LIFO free list); CPython address reuse is not "
-            "controlled by the harness, so id()-keyed staleness is only caught when the allocator happens to reuse addresses.",
+            "Node-index recycling is exercised deterministically (rustworkx LIFO free list); CPython address reuse is provoked "
+            "by the drop-then-create prefixes (reliably in practice, seeds c13-2/c14-2 are caught on every run) but not forced.",
             "DESIGN.md section 3 C14"),
     "C16": ("model_checking",
             "exhaustive sequences of write operations on real managed fields vs plain list/set semantics + reference closure after every step",
@@ -113,7 +113,9 @@ ENTRIES = {
             "exhaustive enumeration of call shapes (signature x positional/keyword split x argument sources) with a call log of harness-defined bodies",
             "Every call shape - Predicate subclass, @symbolic_function function and method; arity 1-3 with 0-2 trailing defaults; "
             "every number of given arguments, positional prefix length and keyword order; every assignment of {variable, attribute "
-            "of a variable, second variable, concrete value} to the arguments (4296 shapes) - is executed: all-concrete calls must run "
+            "of a variable, second variable, result of a nested symbolic call, concrete value} to the arguments - is executed, and so are "
+            "pairs of different callables with the same module and qualified name but another parameter order or number, "
+            "used one after the other in both orders: all-concrete calls must run "
             "once and return the plain result; symbolic calls must not run at construction, must be invoked once per candidate "
             "binding with every parameter bound to the value written in its position, and the query must return exactly the domain "
             "elements the concrete call accepts.",
@@ -124,15 +126,17 @@ ENTRIES = {
             "Construction: every distinct query of the C01 enumeration with <=2 leaves (feature atoms, flatten, nested sub-queries, "
             "one-shot iterables as literal operands, an/the/Exactly) and every rule tree with <=4 branches is built over logging "
             "generator domains and logging items; the event log must be empty, and calling evaluate() without iterating must stay "
-            "silent. Consumption: for 85 query shapes over one-shot generator domains and EVERY k up to the number of results, "
-            "the k results must be a prefix of a fresh full run and some selected variable's generator must not have been read "
-            "past the last element occurring in those k results (loop-order agnostic laziness).",
+            "silent. Consumption: for 100 query shapes over one-shot generator domains (incl. flattened generator-valued "
+            "attributes and flattened one-shot generators) and EVERY k up to the number of results, "
+            "the k results must be a prefix of a fresh full run, some selected variable's generator must not have been read "
+            "past the last element occurring in those k results (loop-order agnostic laziness), and a flattened lazy iterable "
+            "must not have handed out more than the elements up to the k-th result.",
             "All observation points are harness objects (no hook in krrood). Queries with Python bool constants are left to C01.",
             "DESIGN.md section 3 C10"),
     "C11": ("exploration",
             "exhaustive enumeration of match patterns x a domain containing every attribute valuation twice, direct-predicate oracle",
-            "All 811 patterns entity_matching(Box, dom)(tag=?, main=?, items=?) built from literals, literal lists, nested "
-            "matches one and two levels deep, subclass matches, match_any / match_all over every non-empty sub-list of a "
+            "All 1663 patterns entity_matching(Box, dom)(tag=?, main=?, items=?) built from literals, literal lists, nested "
+            "matches one to three levels deep, selects one to three levels below the root pattern, subclass matches, match_any / match_all over every non-empty sub-list of a "
             "3-item universe and the select twins are evaluated over 234 boxes (every (tag, main, items) valuation and a "
             "value-equal twin of each) plus foreign elements; the returned identity set must equal the boxes satisfying a "
             "direct Python predicate and selected parts must be the matched box's own attribute values.",
@@ -166,8 +170,11 @@ ENTRIES = {
             "100k object graphs (2 items x 2 holders with every one/many/back/peers wiring incl. self loops, 2-cycles, repeated "
             "elements, value-equal twins and subclass instances in base-typed fields; an alternatively mapped vector in single "
             "fields, collections and cycles next to a Type-valued field; an alternatively mapped parent with a normally mapped "
-            "child; a TypeDecorator-mapped value class) are converted with to_dao and back with from_dao from every node as "
-            "root and from all nodes with one shared state; the result must be isomorphic including aliasing, collection order "
+            "child, several such children in one conversion; mappings that allocate mapped objects; a many-to-many between an "
+            "alternatively mapped and a normally mapped class; a TypeDecorator-mapped value class) are converted with to_dao "
+            "and back with from_dao from every node as root and from all nodes with one shared state, once with the "
+            "interpreter's id() and once under an identity adversary that hands the identity of every dead object to the next "
+            "object born (mc/idadv.py); the result must be isomorphic including aliasing, collection order "
             "and concrete classes, with exactly one DAO per distinct object.",
             "The curated model reproduces each kind of mapping of the repository's data set (which contains lossy-by-design classes). "
             "Quick tier takes every wiring with a back reference and a fifth of the purely forward ones.",
@@ -177,7 +184,8 @@ ENTRIES = {
             "6500 cases: curated-model graphs (back references, cycles, alternative mappings, custom types) and every generated "
             "model of the C06 grammar with <=2 classes populated with two instances per class in up to 32 (thorough 64) wirings "
             "are stored with to_dao + add_all + commit, the session is closed, and every object is loaded in a NEW Session through "
-            "its own DAO class and through every DAO base class, then converted with from_dao; the reloaded graph must be "
+            "its own DAO class and through every DAO base class, then converted with from_dao (and once more under the "
+            "identity adversary of mc/idadv.py); the reloaded graph must be "
             "isomorphic (polymorphic classes, type-exact scalars, JSON lists in order, relationship collections as sets, sharing) "
             "and every table must hold exactly one row per distinct object of its class.",
             "SQLite in-memory through krrood's own create_engine; repeated elements inside one collection are outside the statement.",
@@ -187,7 +195,8 @@ ENTRIES = {
             "4471 queries (scalar comparisons in six operators, in_/contains with literal lists and strings, one- and two-step "
             "relationship paths, enum literals, attribute-equality joins and cross-variable scalar comparisons, combined with "
             "and_/or_ up to 3 leaves, quantified with an and the, subclass-typed variables, plus one instance of every construct "
-            "the translator has no case for) are evaluated on 12 (thorough 32) database contents: the entities selected by the "
+            "the translator has no case for) are evaluated on 20 (thorough 64) database contents incl. contents where one "
+            "entity has several join partners: the entities - and the row multiplicities, one row per binding - selected by the "
             "SQL statement produced by eql_to_sql in a fresh Session must be exactly those the in-memory engine and a plain-Python "
             "reference select over the original objects, the() must fail in both worlds for the same queries, and anything the "
             "translator cannot express must raise EQLTranslationError.",
